@@ -471,6 +471,7 @@ func GenUciSession(prop string, seed uint64) *Scenario {
 		}
 		var goLine string
 		selfLimit := true
+		ponderUntimed := false
 		var boundMs int64 = 600_000
 		switch mode {
 		case 0: // depth
@@ -497,12 +498,22 @@ func GenUciSession(prop string, seed uint64) *Scenario {
 			boundMs = 120_000
 		case 4: // infinite
 			goLine = "go infinite"
+			if rng.Intn(100) < 15 {
+				// a second limit does not end an infinite search: still only stop does
+				goLine += []string{fmt.Sprintf(" depth %d", rng.Range(1, 3)), fmt.Sprintf(" nodes %d", rng.LogRange(1, 3000)), fmt.Sprintf(" movetime %d", clampMs(rng.LogRange(1, 50), 1))}[rng.Intn(3)]
+			}
 			selfLimit = false
 		case 5: // ponder
 			wt, bt := clampMs(rng.LogRange(100, 5000), 20), clampMs(rng.LogRange(100, 5000), 20)
 			goLine = fmt.Sprintf("go ponder wtime %d btime %d", wt, bt)
 			if rng.Chance(0.3) {
 				goLine = fmt.Sprintf("go ponder movetime %d", clampMs(rng.LogRange(5, 300), 1))
+			}
+			if rng.Intn(100) < 15 {
+				// pondering with a depth or node limit instead of a clock: the
+				// limit holds for the search after the ponderhit
+				goLine = []string{fmt.Sprintf("go ponder depth %d", rng.Range(1, maxD)), fmt.Sprintf("go ponder nodes %d", rng.LogRange(1, 20000))}[rng.Intn(2)]
+				ponderUntimed = true
 			}
 			selfLimit = false
 		case 6: // mate
@@ -563,6 +574,8 @@ func GenUciSession(prop string, seed uint64) *Scenario {
 					st := add(rng.LogRange(5, 50000), "send", "stop")
 					st.Fault = "F1"
 					add(0, "wait_best", "").MaxMs = stopBoundMs + 50
+				} else if ponderUntimed {
+					add(0, "wait_best", "").MaxMs = 600_000
 				} else {
 					add(0, "wait_best", "").MaxMs = 20000 + stallMs
 				}
